@@ -365,8 +365,15 @@ impl AccountEntity {
 pub struct PreferenceRow { _p: () }
 #[verifier::external_body]
 pub struct SystemMessageRow { _p: () }
+/// crates/database/src/entity/server.rs:18 `ServerRow` (row_id, created_at, modified_at, name, url): viewed as (name, url)
 #[verifier::external_body]
 pub struct ServerRow { _p: () }
+impl View for ServerRow {
+    type V = ServerV;
+    uninterp spec fn view(&self) -> ServerV;
+}
+pub open spec fn server_rows_v(rows: Seq<ServerRow>) -> Seq<ServerV> { Seq::new(rows.len(), |i: int| rows[i]@) }
+pub open spec fn opt_server_rows_v(o: Option<Vec<ServerRow>>) -> Seq<ServerV> { match o { Some(v) => server_rows_v(v@), None => Seq::<ServerV>::empty() } }
 /// only the abstract component `fold.rest` (= every table other than the event tables, folders, folder_secrets and
 /// the three account tables) may differ
 pub open spec fn only_rest_differs(a: UDbV, b: UDbV) -> bool {
@@ -393,14 +400,16 @@ impl SystemMessageEntity {
         ensures only_rest_differs(old(tx).cur(), final(tx).cur()),
     { unimplemented!() }
 }
-/// server.rs:169 `insert_servers` -> :146: "INSERT INTO servers (account_id, created_at, modified_at, name, url) VALUES
-/// (?1 .. ?5)" per row (PINNED): writes the table `servers` only
+/// PINNED SQL (server.rs:169 `insert_servers` -> :146 `insert_server`):
+///   "INSERT INTO servers (account_id, created_at, modified_at, name, url) VALUES (?1, ?2, ?3, ?4, ?5)"
+/// once per element of `servers`, in order, bound: (account_id, created_at, modified_at, name, url) of the row.
+/// Writes the table `servers` only; `server_id INTEGER PRIMARY KEY` is the rowid alias (new rows follow the present ones).
 pub struct ServerEntity { pub _p: () }
 impl ServerEntity {
     pub fn new<C>(conn: &C) -> (r: ServerEntity) { ServerEntity { _p: () } }
     #[verifier::external_body]
     pub fn insert_servers(&self, tx: &mut Transaction, account_id: i64, rows: &[ServerRow]) -> (r: StdResult<(), SqlError>)
-        ensures only_rest_differs(old(tx).cur(), final(tx).cur()),
+        ensures r is Ok ==> final(tx).cur() == (UDbV { servers: old(tx).cur().servers + acct_servers(account_id as int, server_rows_v(rows@)), ..old(tx).cur() }),
     { unimplemented!() }
 }
 
@@ -443,7 +452,10 @@ impl Arc<Paths> {
     pub uninterp spec fn device_file_p(&self) -> PathBuf;
     pub uninterp spec fn device_events_p(&self) -> PathBuf;
     pub uninterp spec fn file_events_p(&self) -> PathBuf;
+    pub uninterp spec fn remote_origins_p(&self) -> PathBuf;
     pub uninterp spec fn is_server_v(&self) -> bool;
+    #[verifier::external_body]
+    pub fn remote_origins(&self) -> (r: PathBuf) ensures r == self.remote_origins_p() { unimplemented!() }
     #[verifier::external_body]
     pub fn is_global(&self) -> (r: bool) { unimplemented!() }
     #[verifier::external_body]
@@ -492,8 +504,111 @@ impl PublicIdentity {
     pub fn label(&self) -> (r: &str) ensures r@ == self.label_v() { unimplemented!() }
 }
 /// crates/database_upgrader/src/lib.rs `UpgradeOptions` — opaque (only the server list remapping reads it)
+pub struct UpgradeOptions { pub remap_servers: HashMap<Url, Url> }
+
+// ---- the server list (db_import.rs:301-324) ------------------------------------------------------------------
+/// url::Url (url 2.5): viewed as its text (`Display` = the serialization, what `ServerRow::try_from` stores)
 #[verifier::external_body]
-pub struct UpgradeOptions { _p: () }
+pub struct Url { _p: () }
+impl View for Url {
+    type V = Seq<char>;
+    uninterp spec fn view(&self) -> Seq<char>;
+}
+impl Url {
+    /// `ToString` through `impl Display for Url`
+    #[verifier::external_body]
+    pub fn to_string(&self) -> (r: String) ensures r@ == self@ { unimplemented!() }
+}
+impl Clone for Url {
+    /// `#[derive(Clone)]`
+    #[verifier::external_body]
+    fn clone(&self) -> (r: Url) ensures r@ == self@ { unimplemented!() }
+}
+/// sos_core::Origin (crates/core/src/origin.rs:11 `struct Origin { name: String, url: Url }`), viewed as (name, url text)
+#[verifier::external_body]
+pub struct Origin { _p: () }
+impl View for Origin {
+    type V = ServerV;
+    uninterp spec fn view(&self) -> ServerV;
+}
+pub open spec fn origins_v(l: Seq<Origin>) -> Seq<ServerV> { Seq::new(l.len(), |i: int| l[i]@) }
+impl Origin {
+    /// origin.rs:18 `new`: `Self { name, url }`
+    #[verifier::external_body]
+    pub fn new(name: String, url: Url) -> (r: Origin) ensures r@ == (ServerV { name: name@, url: url@ }) { unimplemented!() }
+    /// origin.rs:28 `url`: `&self.url`
+    #[verifier::external_body]
+    pub fn url(&self) -> (r: &Url) ensures r@ == self@.url { unimplemented!() }
+}
+impl HashMap<Url, Url> {
+    /// `UpgradeOptions::remap_servers` as a map from url text to url text (`Url: Eq + Hash` compare the serialization)
+    pub uninterp spec fn urls(&self) -> Map<Seq<char>, Seq<char>>;
+    /// `HashMap::get`
+    #[verifier::external_body]
+    pub fn get(&self, k: &Url) -> (r: Option<&Url>)
+        ensures (r is Some <==> self.urls().contains_key(k@)), r matches Some(v) ==> v@ == self.urls()[k@],
+    { unimplemented!() }
+}
+/// serde_json::Error — opaque
+#[derive(Debug)]
+pub struct JsonError { pub _p: () }
+/// the server origins a remote-origins file holds (`serde_json::from_slice::<Vec<Origin>>`, a JSON array): a NAME for them
+pub uninterp spec fn fs_origins(b: Seq<u8>) -> Seq<ServerV>;
+/// R12: `serde_json::from_slice::<Vec<Origin>>(&buffer)`: the origins of the JSON array, in array order
+#[verifier::external_body]
+pub fn json_origins(b: &[u8]) -> (r: StdResult<Vec<Origin>, JsonError>)
+    ensures r matches Ok(v) ==> origins_v(v@) == fs_origins(b@),
+{ unimplemented!() }
+impl ServerRow {
+    /// R12: `origin.try_into()` = server.rs:41 `impl TryFrom<Origin> for ServerRow`: name = value.name().to_string(),
+    /// url = value.url().to_string(), time stamps = now (PINNED)
+    #[verifier::external_body]
+    pub fn try_from(value: Origin) -> (r: DbResult<ServerRow>)
+        ensures r matches Ok(row) ==> row@ == value@,
+    { unimplemented!() }
+}
+/// R12: `$xs.into_iter().map($f).collect::<Vec<_>>()` on a `Vec`: `f` applied to every element, in order (verified, not
+/// assumed).  The closure `$f` stays extracted code; the rewrite gives it a parameter type and an `ensures`.
+pub fn vmap_into_collect<A, B, F: Fn(A) -> B>(xs: Vec<A>, f: F) -> (r: Vec<B>)
+    requires forall|a: A| call_requires(f, (a,)),
+    ensures r@.len() == xs@.len(), forall|i: int| 0 <= i < xs@.len() ==> call_ensures(f, (xs@[i],), #[trigger] r@[i]),
+{
+    let mut out: Vec<B> = Vec::new();
+    let ghost s = xs@;
+    for x in it: xs
+        invariant it.seq() == s, out@.len() == it.index@, forall|a: A| call_requires(f, (a,)),
+            forall|j: int| 0 <= j < it.index@ ==> call_ensures(f, (s[j],), #[trigger] out@[j]),
+    {
+        out.push(f(x));
+    }
+    out
+}
+/// the `Some` values of a sequence of options, in order
+pub open spec fn somes<B>(o: Seq<Option<B>>) -> Seq<B>
+    decreases o.len(),
+{
+    if o.len() == 0 { Seq::empty() } else { match o.last() { Some(b) => somes(o.drop_last()).push(b), None => somes(o.drop_last()) } }
+}
+/// R12: `$xs.into_iter().filter_map($f).collect::<Vec<_>>()` on a `Vec`: `f` applied to every element, in order; the
+/// `Some` results are kept, in order, the `None` results are dropped (verified, not assumed)
+pub fn vfilter_map_into_collect<A, B, F: Fn(A) -> Option<B>>(xs: Vec<A>, f: F) -> (r: Vec<B>)
+    requires forall|a: A| call_requires(f, (a,)),
+    ensures exists|outs: Seq<Option<B>>| outs.len() == xs@.len() && (forall|i: int| 0 <= i < xs@.len() ==> call_ensures(f, (xs@[i],), #[trigger] outs[i])) && r@ == somes(outs),
+{
+    let mut out: Vec<B> = Vec::new();
+    let ghost s = xs@;
+    let ghost mut outs: Seq<Option<B>> = Seq::empty();
+    for x in it: xs
+        invariant it.seq() == s, outs.len() == it.index@, forall|a: A| call_requires(f, (a,)),
+            forall|j: int| 0 <= j < it.index@ ==> call_ensures(f, (s[j],), #[trigger] outs[j]),
+            out@ == somes(outs),
+    {
+        let o = f(x);
+        proof { let n = outs.push(o); assert(n.drop_last() =~= outs); outs = n; }
+        match o { Some(b) => { out.push(b); } None => {} }
+    }
+    out
+}
 
 /// db_import.rs:36 `enum AccountStorage { Server(ServerStorage), Client(ClientStorage) }` with db_import.rs:52
 /// `impl StorageEventLogs for AccountStorage` (each method dispatches to the same method of the wrapped storage).
@@ -556,9 +671,6 @@ pub fn load_account_preferences(paths: &Arc<Paths>) -> (r: Result<Option<Vec<Pre
 /// db_import.rs:286-299: system-messages.json -> `SystemMessageRow`s.  Reads files only.
 #[verifier::external_body]
 pub fn load_account_messages(paths: &Arc<Paths>) -> (r: Result<Option<Vec<SystemMessageRow>>>) { unimplemented!() }
-/// db_import.rs:301-324: remote origins file (+ `options.remap_servers`) -> `ServerRow`s.  Reads files only.
-#[verifier::external_body]
-pub fn load_remote_servers(paths: &Arc<Paths>, options: &UpgradeOptions) -> (r: Result<Option<Vec<ServerRow>>>) { unimplemented!() }
 /// db_import.rs:422-438: `ServerStorage::new(BackendTarget::Database(..), account_id)` /
 /// `ClientStorage::new_unauthenticated(BackendTarget::Database(..), account_id)`: opens the imported account (loads the
 /// account row, the folder rows and the commit trees of the logs).  ASSUMED FRAME: it does not touch the event tables,
